@@ -314,7 +314,7 @@ var hexSpecial = regexp.MustCompile(`-(3c|3e|22|27|26)`)
 func cid(name string) string {
 	// the special characters of a token as PageSource writes them (dash and hexadecimal value)
 	name = hexSpecial.ReplaceAllString(name, "")
-	return strings.Replace(nonAlnum.ReplaceAllString(name, ""), "q7", "", -1)
+	return strings.Replace(strings.Replace(nonAlnum.ReplaceAllString(name, ""), "q7nbsp", "", -1), "q7", "", -1)
 }
 
 type memWriter struct {
@@ -693,6 +693,13 @@ func observe(c Case) Obs {
 			// the same site with every page group on: which names exist at all
 			all := Options{true, true, true, true, true, true, o.Living}
 			add("allgroups", Job{Mode: "site", Texts: []string{text}, Opts: all, Jobs: jobs[0]}, false)
+			if !o.Individuals || !o.Sources {
+				// ... and with only the groups that links lead into switched on as well (the names of the pages of
+				// individuals depend on whether places are published)
+				lg := o
+				lg.Individuals, lg.Sources = true, true
+				add("linkgroups", Job{Mode: "site", Texts: []string{text}, Opts: lg, Jobs: jobs[0]}, false)
+			}
 		}
 		if hasPeople(c.Twin) {
 			add("twin", Job{Mode: "site", Texts: []string{Render(c.Twin)}, Opts: c.Opts, Jobs: jobs[0]}, false)
